@@ -58,11 +58,17 @@ pub fn reduce_exprs() -> Vec<Value> {
         json!({"reduce": [[1, 2], {"+": [{"var": "current"}, {"var": "accumulator"}]}, {"var": "current"}]}),
         json!({"missing": ["current", "accumulator", "outer"]}),
         json!({"cat": [{"var": "accumulator.0"}, {"var": "current.current"}]}),
+        // folds through the selecting operators, the accumulator in every operand position (they return an OPERAND,
+        // not a boolean: which one depends on every element, not only on the first that "settles" the truthiness)
+        json!({"and": [{"var": "current"}, {"var": "accumulator"}]}), json!({"and": [{"var": "accumulator"}, {"var": "current"}]}),
+        json!({"or": [{"var": "current"}, {"var": "accumulator"}]}), json!({"or": [{"var": "accumulator"}, {"var": "current"}]}),
+        json!({"if": [{"var": "accumulator"}, {"var": "current"}, {"var": "accumulator"}]}), json!({"and": [{"<": [{"+": [{"var": "current"}]}, 10]}, {"var": "accumulator"}]}),
+        json!({"max": [{"var": "current"}, {"var": "accumulator"}]}), json!({"?:": [{"var": "current"}, {"var": "accumulator"}, {"var": "current"}]}),
     ]
 }
 
 pub fn inits() -> Vec<Value> {
-    vec![json!(0), json!(""), json!([]), json!(null), json!({"var": "outer"}), json!({"var": "init"}), json!({"+": ["x"]}), json!({"log": "I"}), json!({"var": "current"})]
+    vec![json!(0), json!(""), json!([]), json!(null), json!({"var": "outer"}), json!({"var": "init"}), json!({"+": ["x"]}), json!({"log": "I"}), json!({"var": "current"}), json!(true), json!(false)]
 }
 
 pub fn meta(_thorough: bool) -> (String, Value) {
